@@ -1,8 +1,11 @@
 package common
 
 import (
+	"bytes"
 	"encoding/json"
 	"fmt"
+	"io"
+	"strings"
 
 	r "github.com/DemoHn/Zn/pkg/runtime"
 	"github.com/DemoHn/Zn/pkg/value"
@@ -17,13 +20,125 @@ func HashMapToJSONString(hm *value.HashMap) (*value.String, error) {
 }
 
 func JSONStringToElement(jsonStr *value.String) (r.Element, error) {
-	plainMap := map[string]any{}
-	vdata := []byte(jsonStr.GetValue())
-	if err := json.Unmarshal(vdata, &plainMap); err != nil {
+	dec := json.NewDecoder(strings.NewReader(jsonStr.GetValue()))
+	elem, err := decodeElement(dec, 1)
+	if err == nil {
+		// the text must hold exactly one JSON value
+		if _, errX := dec.Token(); errX != io.EOF {
+			err = fmt.Errorf("json: invalid character after top-level value")
+		}
+	}
+	if err != nil {
 		return nil, value.ThrowException("解析JSON失败 - " + err.Error())
 	}
 
-	return buildElementFromPlainValue(plainMap), nil
+	switch elem.(type) {
+	case *value.HashMap:
+		return elem, nil
+	case *value.Null:
+		// same as unmarshalling `null` into a map: nothing is stored
+		return value.NewEmptyHashMap(), nil
+	}
+	return nil, value.ThrowException("解析JSON失败 - json: top-level value is not an object")
+}
+
+// maxJSONDepth - nesting limit of arrays and objects (same as encoding/json)
+const maxJSONDepth = 10000
+
+// decodeElement - read ONE json value from the token stream; members of an
+// object are appended to the HashMap one by one so that keys stay in document order
+// (unmarshalling into a Go map loses the order).
+func decodeElement(dec *json.Decoder, depth int) (r.Element, error) {
+	token, err := dec.Token()
+	if err != nil {
+		if err == io.EOF {
+			return nil, io.ErrUnexpectedEOF
+		}
+		return nil, err
+	}
+	delim, ok := token.(json.Delim)
+	if !ok {
+		// null, bool, number (float64), string
+		return buildElementFromPlainValue(token), nil
+	}
+	if depth > maxJSONDepth {
+		return nil, fmt.Errorf("json: exceeded max depth")
+	}
+
+	var result r.Element
+	switch delim {
+	case '{':
+		target := value.NewEmptyHashMap()
+		for dec.More() {
+			keyToken, err := dec.Token()
+			if err != nil {
+				return nil, err
+			}
+			key, ok := keyToken.(string)
+			if !ok {
+				return nil, fmt.Errorf("json: object key is not a string")
+			}
+			finalValue, err := decodeElement(dec, depth+1)
+			if err != nil {
+				return nil, err
+			}
+			target.AppendKVPair(value.KVPair{
+				Key:   key,
+				Value: finalValue,
+			})
+		}
+		result = target
+	case '[':
+		varr := value.NewEmptyArray()
+		for dec.More() {
+			vitem, err := decodeElement(dec, depth+1)
+			if err != nil {
+				return nil, err
+			}
+			varr.AppendValue(vitem)
+		}
+		result = varr
+	default:
+		return nil, fmt.Errorf("json: invalid character '%c' looking for beginning of value", rune(delim))
+	}
+	// closing bracket
+	if _, err := dec.Token(); err != nil {
+		if err == io.EOF {
+			return nil, io.ErrUnexpectedEOF
+		}
+		return nil, err
+	}
+	return result, nil
+}
+
+// orderedObject - plain value of a HashMap. encoding/json writes a Go map with its
+// keys sorted, so the members are kept in keyOrder and written by MarshalJSON.
+type orderedObject struct {
+	keys   []string
+	values []any
+}
+
+func (o orderedObject) MarshalJSON() ([]byte, error) {
+	var buf bytes.Buffer
+	buf.WriteByte('{')
+	for idx, key := range o.keys {
+		if idx > 0 {
+			buf.WriteByte(',')
+		}
+		keyData, err := json.Marshal(key)
+		if err != nil {
+			return nil, err
+		}
+		valueData, err := json.Marshal(o.values[idx])
+		if err != nil {
+			return nil, err
+		}
+		buf.Write(keyData)
+		buf.WriteByte(':')
+		buf.Write(valueData)
+	}
+	buf.WriteByte('}')
+	return buf.Bytes(), nil
 }
 
 func ElementToJSONString(elem r.Element) (*value.String, error) {
@@ -52,9 +167,11 @@ func buildPlainValueFromElement(elem r.Element) any {
 		}
 		return resultList
 	case *value.HashMap:
-		resultMap := map[string]any{}
-		for k, vi := range vv.GetValue() {
-			resultMap[k] = buildPlainValueFromElement(vi)
+		resultMap := orderedObject{keys: []string{}, values: []any{}}
+		valueMap := vv.GetValue()
+		for _, k := range vv.GetKeyOrder() {
+			resultMap.keys = append(resultMap.keys, k)
+			resultMap.values = append(resultMap.values, buildPlainValueFromElement(valueMap[k]))
 		}
 		return resultMap
 	}
